@@ -1277,8 +1277,11 @@ fn main() {
         run_replay(&mut cx, &v["replay"], "corpus");
     }
 
-    // the model must know exactly the accessors exercised here (a new accessor in the
-    // source shows up as a disagreement on this line)
+    // The accessor list of this harness is static (calling a new accessor needs new code), so
+    // it is CHECKED against the accessor table regenerated from the source: the driver
+    // answers `names` with every accessor tools/gen_regmap.py found in ANY inherent impl block
+    // of the five structs (it refuses impls / modules / macros it cannot see into); a new or
+    // removed accessor makes this line disagree and the run fail.
     let mut names: Vec<&str> = ALL.to_vec();
     names.sort();
     cx.rep.expect("c13 names".into(), format!("ok {}", names.join(",")));
